@@ -272,7 +272,7 @@ def subunit_init(rng, T):
     table = device_table(rng, T, [c["id"]], p_answer=rng.choice([0.0, 0.5, 1.0]))
     unsol = []
     for _ in range(rng.randint(0, 4)):
-        f = rng.choice(c["fns"])
+        f = rng.choice([x for x in c["fns"] if x["name"] != "VERSION"])     # device assumption: SYS:VERSION is never sent unsolicited
         unsol.append([round(rng.uniform(0.0, 4.0), 3), f"@{c['id']}:{f['name']}={_value_for(rng, T, f)}"])
     lat = rng.choice([0.0, 0.02, 0.099, 0.15, 0.4])
     dev = {"type": "scripted", "latency": lat, "table": table, "unsolicited": unsol, "avail": {c["id"]: "Ready"}}
@@ -290,8 +290,30 @@ def subunit_init(rng, T):
         q = f["init"] or f["name"]
         if q not in queries:
             queries.append(q)
-    return {"kind": "subunit", "class": c["py"], "device": dev, "expect_id": c["id"], "expect_queries": queries,
-            "readable": [f["name"] for f in c["fns"] if f["get"]]}
+    def entry(cl):
+        qs = []
+        for f in cl["fns"]:
+            if f["no_init"]:
+                continue
+            q = f["init"] or f["name"]
+            if q not in qs:
+                qs.append(q)
+        return {"class": cl["py"], "expect_id": cl["id"], "expect_queries": qs, "readable": [f["name"] for f in cl["fns"] if f["get"]]}
+
+    inits = [entry(c)]
+    r = rng.random()
+    if r < 0.3:
+        # further subunits are constructed on the same connection BEFORE anything is initialised, then initialised one after the other
+        for c2 in rng.sample([x for x in T["classes"] if x["id"] != c["id"]], rng.randint(1, 2)):
+            inits.append(entry(c2))
+            dev["table"].update(device_table(rng, T, [c2["id"]], p_answer=0.5))
+    elif r < 0.45:
+        inits.append(dict(entry(c), same_as=0))            # the same object is initialised a second time
+        inits[0]["gap"] = rng.choice([0.0, 0.5, 3.0])
+    spec = {"kind": "subunit", "class": c["py"], "device": dev, "inits": inits}
+    if rng.random() < 0.4:
+        spec["pre_delay"] = rng.choice([0.3, 1.0, 4.5])     # unsolicited reports can arrive before initialize() is called
+    return spec
 
 
 def conn_slow_writes(rng):
